@@ -115,20 +115,27 @@ def run_history(lines, tracks, attached, hist, initial="dense"):
         proj.new_module(rv.m.Amplifier)
         proj.attach_pattern(pat)
     # start from a non-empty pattern so "keeps previous content" is observable
-    off = {"dense": None, "sparse0": 0, "sparse3": 3}[initial]
-    for l in range(lines):
-        for t in range(tracks):
-            n = pat.data[l][t]
-            if off is None:
-                n.note, n.vel, n.ctl, n.val = rv.NOTECMD(100 + l), 3, t, l
-            else:
-                c = SPARSE[(l * tracks + t + off) % len(SPARSE)]
-                n.note, n.vel, n.module, n.ctl, n.val = rv.NOTECMD(c[0]), c[1], c[2], c[3], c[4]
-    grid = grid_of(pat)
+    if initial == "untouched":
+        # a freshly constructed pattern whose note grid has NEVER been read or written before the first bulk
+        # edit (no `.data` / `.raw_data` access by the harness either): its content is all-empty cells
+        grid = [[(0, 0, 0, 0, 0) for _t in range(tracks)] for _l in range(lines)]
+    else:
+        off = {"dense": None, "sparse0": 0, "sparse3": 3}[initial]
+        for l in range(lines):
+            for t in range(tracks):
+                n = pat.data[l][t]
+                if off is None:
+                    n.note, n.vel, n.ctl, n.val = rv.NOTECMD(100 + l), 3, t, l
+                else:
+                    c = SPARSE[(l * tracks + t + off) % len(SPARSE)]
+                    n.note, n.vel, n.module, n.ctl, n.val = rv.NOTECMD(c[0]), c[1], c[2], c[3], c[4]
+        grid = grid_of(pat)
     for i, op in enumerate(hist):
         kind = op["op"] + ("-fail" if op["fail"] is not None else "-ok")
         key = {"op": kind, "attached": attached, "initial": initial.rstrip("03")}
-        raw_before = pat.raw_data
+        if initial == "untouched" and i > 0:
+            key["initial"] = "untouched-then-edited"
+        raw_before = pat.raw_data if not (initial == "untouched" and i == 0) else bytes(8 * lines * tracks)
         raised, expect_fail, expected = apply_op(pat, grid, op, lines, tracks)
         got = grid_of(pat)
         if raised != expect_fail:
@@ -176,7 +183,7 @@ def _task(t):
     for first in ops[first_lo:first_hi]:
         for rest in itertools.chain.from_iterable(itertools.product(ops, repeat=d) for d in range(0, depth)):
             hist = [first] + list(rest)
-            for initial in ("dense", "sparse0", "sparse3"):
+            for initial in ("dense", "sparse0", "sparse3", "untouched"):
                 vs = run_history(lines, tracks, attached, hist, initial)
                 r["evals"] += 1
                 C.count(r, "histories")
